@@ -1,6 +1,6 @@
 """symx.zmodel - contract model of zlib.decompressobj shared by the symbolic engine and the
 concrete replayer (z3-free).  A harness registers (compressed cells, plain cells); inflating
-exactly that compressed byte string yields the plain bytes, anything else is garbage."""
+that compressed byte string - in one piece or in chunks - yields the plain bytes, anything else is a corrupt stream."""
 import zlib as _z
 
 error = _z.error
@@ -30,39 +30,118 @@ class Model:
 
 
 class Decomp:
+    """streaming contract of zlib.decompressobj for a registered (compressed, plain) pair:
+    * the object sees the concatenation of the input it CONSUMED; that must be a prefix of the registered compressed string
+      (anything else is a corrupt stream: zlib.error), bytes after its end go to unused_data;
+    * after consuming i of the C compressed bytes it has produced out(i) = i*P // C of the P plain bytes (out(C) = P): a
+      linear profile, one of the behaviours a real deflate stream can have;
+    * decompress(data, max_length > 0) stops consuming as soon as max_length bytes are available; the input not consumed is
+      left in unconsumed_tail and is NOT remembered by the object - the caller has to pass it again (or call flush(), which
+      processes unconsumed_tail);
+    * eof once everything was consumed and delivered."""
     def __init__(self, model):
         self.m = model
-        self._pending = None
+        self.pair = None
+        self.fed = 0            # compressed cells consumed so far
+        self.outpos = 0         # plain cells delivered so far
         self.unused_data = b''
         self.unconsumed_tail = b''
+        self._tail = []
         self.eof = False
+
+    def _same(self, a, b):
+        return a is b or (type(a) is int and type(b) is int and a == b)
+
+    def _identify(self, data):
+        # the registered stream this input begins: one of exactly this length first (the usual one-piece call), then a longer one
+        # (first chunk of several), then a shorter one (stream followed by other bytes)
+        def rank(pair):
+            d = len(pair[0]) - len(data)
+            return (0 if d == 0 else 1 if d > 0 else 2, abs(d))
+        for comp, plain in sorted(self.m.registry, key=rank):
+            n = min(len(comp), len(data))
+            if n and all(self._same(comp[i], data[i]) for i in range(n)):
+                return comp, plain
+            if not comp and not data:
+                return comp, plain
+        return None
+
+    def _out(self, i):
+        # the last compressed cell stands for the stream trailer (end-of-block code + Adler-32): all plain bytes are available
+        # once the cells before it were consumed, and it is itself consumed only after all of them were delivered - which is why
+        # real zlib leaves a non-empty unconsumed_tail whenever max_length cut the output short
+        comp, plain = self.pair
+        C, P = len(comp), len(plain)
+        if C <= 1:
+            return P if i >= C else 0
+        return P if i >= C - 1 else (i * P) // (C - 1)
 
     def decompress(self, data, max_length=0):
         if max_length < 0:
             raise ValueError('max_length must be non-negative')
-        if self._pending is None:
-            plain = self.m.lookup(data)
-            if plain is None:
+        data = list(data)
+        if self.pair is None:
+            if not data:
+                return b''
+            self.pair = self._identify(data)
+            if self.pair is None:
                 raise error('Error -3 while decompressing data: incorrect header check (model: unregistered payload)')
-            self._pending = list(plain)
-        elif len(data) == 0 and not self._pending:
-            return b''
-        n = len(self._pending)
-        if max_length == 0 or max_length >= n:
-            out = self._pending
-            self._pending = []
+        comp, plain = self.pair
+        # a limit of 0, or one that the rest of the stream cannot reach, is no limit (decided symbolically: the declared size of a
+        # section may be any value); a smaller one is a concrete number below the plain size
+        if max_length == 0 or max_length >= len(plain) - self.outpos:
+            k = 0
         else:
             k = int(max_length)
-            out = self._pending[:k]
-            self._pending = self._pending[k:]
-        # input that has not been turned into output yet stays in unconsumed_tail (opaque marker bytes)
-        self.unconsumed_tail = b'\x00' if self._pending else b''
-        if not self._pending:
-            self.eof = True
+        # how many cells of data are consumed
+        avail = len(comp) - self.fed
+        usable = min(len(data), avail)
+        for i in range(usable):
+            if not self._same(comp[self.fed + i], data[i]):
+                raise error('Error -3 while decompressing data: invalid stored block lengths (model: not the continuation of the stream)')
+        c = usable
+        if k:
+            lo = 0
+            # smallest c with enough output (out is monotone)
+            while lo < usable and self._out(self.fed + lo) - self.outpos < k:
+                lo += 1
+            c = lo
+        end = self._out(self.fed + c)
+        if k:
+            end = min(end, self.outpos + k)
+        if end < len(plain) and self.fed + c >= len(comp) and c > 0:
+            c -= 1              # output remains: the trailer cell is not consumed yet
+        self.fed += c
+        out = plain[self.outpos:end]
+        self.outpos = end
+        rest = data[c:]
+        if self.fed >= len(comp):
+            # bytes after the end of the compressed stream
+            if self.outpos >= len(plain):
+                self.eof = True
+                self._tail = []
+                self.unconsumed_tail = b''
+                if rest:
+                    self.unused_data = self.m.mkbytes(rest)
+                return self.m.mkbytes(out)
+        self._tail = rest if (rest or self._out(self.fed) > self.outpos) else []
+        # pending output without pending input is signalled like zlib does: a non-empty unconsumed_tail only if input remains
+        self.unconsumed_tail = self.m.mkbytes(rest) if rest else b''
         return self.m.mkbytes(out)
 
     def flush(self, *a):
-        out = self._pending or []
-        self._pending = []
-        self.eof = True
+        if self.pair is None:
+            self.eof = True
+            return b''
+        comp, plain = self.pair
+        tail, self._tail = list(self._tail), []
+        out = []
+        if tail:
+            out = list(self.decompress(tail))
+        # output still buffered inside the object
+        end = self._out(self.fed)
+        out = list(out) + plain[self.outpos:end]
+        self.outpos = end
+        self.unconsumed_tail = b''
+        self.eof = self.fed >= len(comp)
         return self.m.mkbytes(out)
